@@ -252,6 +252,7 @@ def plan(tier):
                                                          ('scale',)]
     units += [('big', n) for n in big_sizes(tier)]
     units += [('metabody', i) for i in range(len(META_BODIES))]
+    units += [('alt-encodings', v) for v in range(3)]
     units += [('long', nch, nf) for nch, nf in LONG_SHAPES]
     return {
         'units': units,
@@ -325,7 +326,58 @@ def run_unit(unit, tier):
                 visit(seq)
 
     recurse = [True]
-    if unit[0] == 'metabody':
+    if unit[0] == 'alt-encodings':
+        # legal orders in which containers ALTERNATE between declaring an
+        # ASCII-incompatible encoding and declaring none, contents written
+        # in the encoding they inherit: every such order is accepted (an
+        # order is legal whatever the options of its headers are)
+        from mc.observe import read_all as _ra
+        encs = [('utf-16', None), (None, 'utf-32'), ('utf-16', 'utf-32')][
+            unit[1]]
+        for p in legal_prefixes(8):
+            if sum(1 for x in p if x in ('.change', '..file')) < 2:
+                continue
+            calls = []
+            nchg = nfile = 0
+            for sid in p[1:]:
+                name = sid.lstrip('.')
+                if name == 'change':
+                    calls.append(['change', encs[0] if nchg % 2 == 0
+                                  else None])
+                    nchg += 1
+                elif name == 'file':
+                    calls.append(['file', encs[1] if nfile % 2 == 0
+                                  else None])
+                    nfile += 1
+                elif name == 'preamble':
+                    calls.append(['preamble', 'p é\n', None, 2, None, None])
+                elif name == 'meta':
+                    calls.append(['meta', {'k': 'é'}, None])
+                else:
+                    calls.append(['diff', b'-a\n+b\n', None, None, None])
+            data, recs = spec.serialize(calls, 'utf-8')
+            got, exc, _, _ = _ra(data)
+            viols = []
+            if exc is not None:
+                viols.append(('legal-sequence-rejected:alternating-'
+                              'encodings:%s' % type(exc).__name__,
+                              '%r with container encodings %r: %r'
+                              % (p, encs, exc)))
+            elif [x['section'] for x in got] != list(p):
+                viols.append(('records-differ:alternating-encodings',
+                              '%r gave %r' % (p, [x['section']
+                                                  for x in got])))
+            acc.evals += 1
+            acc.states += 1
+            acc.transitions += 1
+            acc.validated += 1
+            acc.nontrivial += 1
+            for key, msg in viols:
+                acc.violation(key, msg, {'kind': 'alt', 'seq': list(p),
+                                         'variant': unit[1]})
+            acc.outcome('accepted' if not viols else 'violation')
+        acc.sample({'alternating_container_encodings': list(encs)}, 1)
+    elif unit[0] == 'metabody':
         blank = 'meta-%d' % unit[1]
         for p in legal_prefixes(7):
             if not any(x.endswith('meta') for x in p):
